@@ -64,6 +64,7 @@ def check(program: Program, run: Run) -> None:
     run.rule("presence-only: selectors fold to constants given presence values (no dependence on the number)")
     run.rule("zero-dropped: presence of a bare int (TOP) must be tested with `is None`, not truthiness")
     run.rule("param-slot-order (inherited from C04/R2): in every statement class the pagination slots are evaluated in the order they are printed")
+    run.rule("setters store 0 like any other value: a guard around the store tests the argument with `is None`, never for truthiness")
     run.rule("setters: limit->_limit, offset->_offset, slice.start->_offset, slice.stop->_limit, fetch_next->_limit; none reads other pagination state")
     run.exhaustive = True
     vw = program.cls("ValueWrapper")
@@ -173,15 +174,75 @@ def _setters(program: Program, run: Run) -> None:
             n += 1
             got = {}
             reads = set()
+            # single-assignment locals are names for their right-hand side (start, stop = slice.start, slice.stop)
+            alias: dict[str, str] = {}
+            stores_: dict[str, int] = {}
+            for node in ast.walk(f.node):
+                if isinstance(node, ast.Name) and isinstance(node.ctx, ast.Store):
+                    stores_[node.id] = stores_.get(node.id, 0) + 1
+            for node in ast.walk(f.node):
+                if isinstance(node, ast.Assign) and len(node.targets) == 1:
+                    t0, v0 = node.targets[0], node.value
+                    pairs = [(t0, v0)] if isinstance(t0, ast.Name) else (
+                        list(zip(t0.elts, v0.elts)) if isinstance(t0, ast.Tuple) and isinstance(v0, ast.Tuple) and len(t0.elts) == len(v0.elts) else [])
+                    for tn, vn in pairs:
+                        if isinstance(tn, ast.Name) and stores_.get(tn.id) == 1 and isinstance(vn, (ast.Name, ast.Attribute)):
+                            alias[tn.id] = ast.unparse(vn)
+
+            def src_text(x) -> str:
+                return alias.get(x.id, x.id) if isinstance(x, ast.Name) else ast.unparse(x)
             for node in ast.walk(f.node):
                 if isinstance(node, ast.Assign):
                     for t in node.targets:
                         if isinstance(t, ast.Attribute) and isinstance(t.value, ast.Name) and t.value.id == f.params[0]:
-                            srcs = {ast.unparse(x) for x in ast.walk(node.value) if isinstance(x, (ast.Name, ast.Attribute))}
+                            srcs = {src_text(x) for x in ast.walk(node.value) if isinstance(x, (ast.Name, ast.Attribute))}
                             got[t.attr] = srcs
                 if isinstance(node, ast.Attribute) and isinstance(node.ctx, ast.Load) and isinstance(node.value, ast.Name) and node.value.id == f.params[0] \
                         and node.attr in ("_limit", "_offset", "_top", "_orderbys"):
                     reads.add(node.attr)
+            # zero is a value: a guard around the store may test the argument for None, not for truthiness
+            def guards_of(stmts, stack, out):
+                for st in stmts:
+                    if isinstance(st, ast.If):
+                        guards_of(st.body, stack + [st.test], out)
+                        guards_of(st.orelse, stack + [st.test], out)
+                    elif isinstance(st, ast.Assign):
+                        for t in st.targets:
+                            if isinstance(t, ast.Attribute) and isinstance(t.value, ast.Name) and t.value.id == f.params[0] and t.attr in mapping:
+                                out.append((t.attr, list(stack), st))
+                        if isinstance(st.value, ast.IfExp):
+                            for t in st.targets:
+                                if isinstance(t, ast.Attribute) and t.attr in mapping:
+                                    out.append((t.attr, list(stack) + [st.value.test], st))
+                    elif isinstance(st, (ast.For, ast.While, ast.With, ast.Try)):
+                        guards_of(getattr(st, "body", []), stack, out)
+
+            def truthiness_of(test, src):
+                """sub-tests that use `src` as a truth value"""
+                bad = []
+                def rec(t):
+                    if isinstance(t, ast.BoolOp):
+                        for v_ in t.values:
+                            rec(v_)
+                    elif isinstance(t, ast.UnaryOp) and isinstance(t.op, ast.Not):
+                        rec(t.operand)
+                    elif isinstance(t, (ast.Name, ast.Attribute)) and src_text(t) == src:
+                        bad.append(ast.unparse(t))
+                    elif isinstance(t, ast.Compare) and isinstance(t.left, (ast.Name, ast.Attribute)) and src_text(t.left) == src and len(t.ops) == 1 and isinstance(t.ops[0], (ast.Gt, ast.NotEq, ast.Lt, ast.GtE)) \
+                            and isinstance(t.comparators[0], ast.Constant) and t.comparators[0].value == 0:
+                        bad.append(ast.unparse(t))
+                rec(test)
+                return bad
+            gl = []
+            guards_of(f.node.body, [], gl)
+            for attr_, stack_, st_ in gl:
+                badg = [b for g_ in stack_ for b in truthiness_of(g_, mapping[attr_])]
+                run.ob("C09 setter stores a zero like any other value (argument tested for None only)", f"{c.qualname}.{name}:{attr_}", not badg,
+                       detail="; ".join(ast.unparse(g_)[:50] for g_ in stack_), where=f.loc(st_))
+                if badg:
+                    run.finding(f"C09/setter-drops-zero:{c.qualname}.{name}:{attr_}",
+                                f"{c.qualname}.{name} stores {attr_} only when `{badg[0]}` is truthy: a 0 is skipped, so an offset/limit recorded by an earlier call stays in force "
+                                f"(q.offset(20)[0:5] keeps OFFSET 20) although 0 was requested", where=f.loc(st_), rule="setters")
             ok = set(got) == set(mapping) and all(mapping[a] in got[a] for a in mapping) and not reads
             wraps = all(any("wrap_constant" in s for s in got.get(a, ())) for a in mapping)
             run.ob("C09 setter writes its own slot from its own argument, wrapped", f"{c.qualname}.{name}", ok and wraps,
